@@ -2,6 +2,7 @@
 """C15 -- A circular record behaves as a circle, never as a line."""
 from __future__ import annotations
 
+import copy
 import itertools
 
 from pyvc import term as tm
@@ -126,11 +127,12 @@ def bounded(ctx):
     for topo, should_raise in (("linear", True), ("LINEAR", True), ("circular", False), ("Circular", False), (None, False)):
         evals += 1
         ann = {} if topo is None else {"topology": topo}
-        src = SeqRecord(Seq("ACGT"), id="i", annotations=dict(ann), features=[SeqFeature(FeatureLocation(0, 2), type="x", qualifiers={"label": ["l"]})],
+        ann.update({"keywords": ["k1"], "structured_comment": {"a": {"b": "c"}}, "references": [object()]})
+        src = SeqRecord(Seq("ACGT"), id="i", annotations=copy.deepcopy({k: v for k, v in ann.items() if k != "references"}), features=[SeqFeature(FeatureLocation(0, 2), type="x", qualifiers={"label": ["l"]})],
                         letter_annotations={"q": [1, 2, 3, 4]})
         for how in ("record", "seq"):
             try:
-                w = CircularRecord(src) if how == "record" else CircularRecord(src.seq, annotations=dict(ann))
+                w = CircularRecord(src) if how == "record" else CircularRecord(src.seq, annotations={k: v for k, v in ann.items() if k == "topology"})
                 raised = False
             except ValueError:
                 raised = True
@@ -141,9 +143,12 @@ def bounded(ctx):
                 w.features[0].qualifiers["label"].append("edited")
                 w.features.append(None)
                 w.annotations["new"] = 1
+                w.annotations["keywords"].append("edited")              # nested mutable values must not be shared either
+                w.annotations["structured_comment"]["a"]["b"] = "edited"
                 w.letter_annotations["q"][0] = 99
                 w.dbxrefs.append("db")
                 if (src.features[0].qualifiers["label"] != ["l"] or len(src.features) != 1 or "new" in src.annotations
+                        or src.annotations["keywords"] != ["k1"] or src.annotations["structured_comment"] != {"a": {"b": "c"}}
                         or src.letter_annotations["q"][0] != 1 or src.dbxrefs):
                     viol.append(dict(name="wrap_copy", what="editing CircularRecord(record) reached the original record",
                                      case=dict(topology=topo)))
